@@ -595,6 +595,8 @@ def children(n):
                 out.extend(impl.get("args", {}).values())
     elif k == "derive":
         out.append(n["base"])
+    elif k == "namespace":
+        pass
     return out
 
 
